@@ -313,10 +313,24 @@ def check_source(trace, stats=None, cuts=None, corruptions=None):
         offs.append(offs[-1] + len(l))
 
     # ---- crash prefixes -------------------------------------------------------------------------
-    def do_cut(ncut):
+    def do_cut(ncut, nbytes=0):
+        """Cut after `ncut` complete lines plus `nbytes` bytes of the next line (a cut inside a line)."""
         nonlocal n_eval
-        tr = {**trace, "fault": {"kind": "crash_prefix", "line": ncut}}
-        data = data0[: offs[ncut]]
+        if nbytes < 0:
+            # a cut between two tokens of the line (a cut inside a number only shortens the number: undetectable by any
+            # reader).  Only for the XYZ family, whose atom lines have no optional fields: in MOL2, SDF, PDB and GRO the
+            # tail of a record is optional or ignored, so a shortened record is a different valid record.
+            import re as _re
+
+            if modname not in ("xyz", "extxyz"):
+                return []
+
+            toks = list(_re.finditer(rb"\S+", lines[ncut])) if ncut < len(lines) else []
+            if len(toks) < 2:
+                return []
+            nbytes = toks[min(-nbytes, len(toks) - 1) - 1].end()
+        tr = {**trace, "fault": {"kind": "crash_prefix", "line": ncut, "bytes": nbytes}}
+        data = data0[: min(len(data0), offs[ncut] + nbytes)]
         endl = []
         # (the cut file is read with another content of uninitialised memory than the uncut one: frames that were
         # pre-allocated for more data than arrived must not differ from the frames of the uncut file)
@@ -452,17 +466,74 @@ def check_source(trace, stats=None, cuts=None, corruptions=None):
             stats.add("nontrivial", common.short(repr((modname, common.sha(data0), "field", f["line"], f["tok"], f["token"]))))
         return vs
 
+    # ---- other damage to a single line: its tail lost, an integer (count, index) changed ----------
+    def do_damage(f):
+        nonlocal n_eval
+        tr = {**trace, "fault": f}
+        data = faults.apply(data0, f)
+        if data == data0:
+            return []
+        first = next((i for i, (a, b) in enumerate(zip(data, data0)) if a != b), min(len(data), len(data0)))
+        line = data0.count(b"\n", 0, first)
+        m = next((i for i, e in enumerate(E) if e is not None and line < e), None)
+        if m is None:
+            return []
+        rec = c07.run_load(name, fmt, "load_many", data, ("exhaust", 0), None, budget)
+        n_eval += 1
+        vs = []
+        for v in _generic({**t7, "faults": [f]}, rec):
+            vs.append(_v(v["cls"], v["msg"], tr, f["kind"]))
+        Y = [canon.iodata_digest(d) for d in rec["frames"]]
+        exc = rec["exc"]
+        warned = "LoadWarning" in rec["warnings"]
+        what = "the tail of a line lost" if f["kind"] == "token_drop" else "an integer field changed"
+        if exc is None and not warned:
+            # (damage to the last frame may make it swallow the rest of the file: that is a file cut inside its last
+            # frame, which may end silently as long as no partial frame is yielded; frames *after* the damaged one
+            # must not disappear silently, nor frames before it)
+            if len(Y) < N and (m < N - 1 or len(Y) < m):
+                vs.append(_v("silent_end", f"{what} in frame {m} (line {line + 1}): only {len(Y)} of {N} frames yielded, without LoadError or LoadWarning", tr, f["kind"]))
+            elif f["kind"] == "token_drop" and modname == "xyz" and not name.endswith(".extxyz"):
+                # plain XYZ is the one format whose atom lines have no optional fields: "symbol x y z", all required
+                # (title lines are free text; in MOL2, SDF, PDB and GRO the tail of an atom line is optional or ignored)
+                start = 0 if m == 0 else E[m - 1]
+                if line - start >= 2:
+                    for i, y in enumerate(Y[:N]):
+                        if y != F[i]:
+                            vs.append(_v("incomplete_line_accepted", f"{what} in frame {m} (line {line + 1}): frame {i} was yielded with other content, without LoadError or LoadWarning", tr, f["kind"]))
+                            break
+        elif exc is not None:
+            if len(Y) < m:
+                vs.append(_v("frame_lost", f"{what} in frame {m}: error after only {len(Y)} frames", tr, f["kind"]))
+            for i, y in enumerate(Y[:m]):
+                if y != F[i]:
+                    vs.append(_v("frame_differs", f"{what} in frame {m}: earlier frame {i} changed", tr, f["kind"]))
+                    break
+        if stats is not None:
+            stats.inc(f"fault.{f['kind']}")
+            stats.inc("steps", rec["steps"])
+            stats.inc(f"outcome.{f['kind']}_{type(exc).__name__ if exc else ('warned' if warned else 'ok')}")
+        return vs
+
     fault = trace.get("fault")
     if fault is not None:
         if fault["kind"] == "crash_prefix":
-            out.extend(do_cut(min(fault["line"], len(lines))))
+            out.extend(do_cut(min(fault["line"], len(lines)), fault.get("bytes", 0)))
+        elif fault["kind"] in ("token_drop", "int_nudge"):
+            out.extend(do_damage(fault))
         else:
             out.extend(do_corrupt(fault))
         return out, n_eval
     for ncut in cuts(len(lines)) if cuts else []:
-        out.extend(do_cut(ncut))
+        if isinstance(ncut, tuple):
+            out.extend(do_cut(*ncut))
+        else:
+            out.extend(do_cut(ncut))
     for f in corruptions(data0) if corruptions else []:
-        out.extend(do_corrupt(f))
+        if f["kind"] in ("token_drop", "int_nudge"):
+            out.extend(do_damage(f))
+        else:
+            out.extend(do_corrupt(f))
     return out, n_eval
 
 
@@ -556,11 +627,20 @@ def run_task(task):
         src = gen_source(rng, tier)
     trace = {"source": src, "fault": None}
 
+    brng = common.rng_for(task["seed"], ID, task["run"], "bytecuts")
+
     def cuts(nl):
         if tier == "thorough" or nl <= 40:
-            return list(range(nl + 1))
-        k = 30 if task["mode"] == "corpus" else 16
-        return sorted(set(rng.sample(range(nl + 1), k)) | {0, nl})
+            base_ = list(range(nl + 1))
+        else:
+            k = 30 if task["mode"] == "corpus" else 16
+            base_ = sorted(set(rng.sample(range(nl + 1), k)) | {0, nl})
+        # cuts inside a line (a writer that died in the middle of a record): the last lines of the file and a few others
+        inner = []
+        for ln in sorted(set([max(0, nl - 1), max(0, nl - 2)] + [brng.randrange(max(1, nl)) for _ in range(6 if tier == "thorough" else 2)])):
+            for _ in range(4 if tier == "thorough" else 2):
+                inner.append((ln, -brng.randint(1, 6)))  # negative: "after that many complete tokens of the line" (resolved in do_cut)
+        return base_ + inner
 
     def corruptions(data0):
         nls = faults.numeric_lines(data0)
@@ -571,6 +651,9 @@ def run_task(task):
         for _ in range(k):
             out.append({"kind": "field_overwrite", "line": rng.choice(nls), "tok": rng.randrange(5),
                         "token": rng.choice(faults.GARBAGE_TOKENS), "keep_width": rng.random() < 0.5})
+        for _ in range(max(2, k // 2)):
+            out.append(faults.random_fault(brng, data0, "token_drop"))
+            out.append(faults.random_fault(brng, data0, "int_nudge"))
         return out
 
     viols, n = check_source(trace, stats, cuts, corruptions)
